@@ -2,12 +2,12 @@
 structure, path-removal schemes, cut-off loop."""
 import ast
 
-from ..core import (AnalysisIncomplete, call_name, const_value, kwarg,
-                    names_loaded, params, target_names, u, walk_expr,
-                    walk_local)
+from ..core import (call_name, const_value, names_loaded, params, u,
+                    walk_expr, walk_local)
 from ..patterns import (Cmp, assigns_to, calls_in, check_no_arg_mutation,
                         conjuncts, finfo, returns_of, subscript_stores)
-from ..match import C, CS, canon, classify
+from ..match import C, canon, classify
+from ..cfg import Assume
 
 PA = 'enspara/tpt/path.py'
 
@@ -21,13 +21,24 @@ EXPLANATION = (
     'the edge flux clipped to the upstream bottleneck, a neighbour is updated '
     'only if unvisited and strictly improved, predecessor and bottleneck are '
     'written under the same index set, the reported flux is min_fluxes at the '
-    'chosen (argmax) sink and the path is rebuilt by predecessor links; (D3) '
-    'the subtract scheme writes the subtraction THROUGH to the working matrix '
-    '(augmented store on the path edges of the copy) and zeroes the '
-    'bottleneck; the bottleneck scheme zeroes the argmin edge; names map to '
-    'schemes; (D4) paths() records path and flux, then tests counter >= '
-    'num_paths or explained >= cutoff, then replaces the working copy by the '
-    'removal result. Optimality among all paths is not decided.')
+    'chosen (argmax) sink and the path is rebuilt by predecessor links '
+    '(appended and returned reversed, or prepended and returned as built; the '
+    'loop may read the link once into a loop-carried name); a heapq frontier '
+    'is accepted only if every improved node is pushed again with its new '
+    'priority -bottleneck (no decrease-key); (D3) the working matrix of a '
+    'removal scheme is what it returns and is bound once to a copy of the '
+    'parameter; its stores (also those of a module-level helper called on it, '
+    'one level) are compared after expansion: the subtract scheme writes the '
+    'subtraction THROUGH to the working matrix on the consecutive path edges '
+    '(an in-place update of a named advanced-index copy is lost) and then '
+    'zeroes the argmin edge; the bottleneck scheme zeroes the argmin edge; '
+    'names map to schemes; (D4) in paths() the search call fixes loop, '
+    'working matrix, path and flux; the no-path test precedes the recording; '
+    'path and flux are appended; the loop is left as soon as <number of '
+    'recorded paths> >= num_paths or <explained fraction> >= cutoff (counter '
+    'from 0 by 1 or len of the result list; fraction from 0 by flux / source '
+    'row sum), tested after recording and before the removal whose result '
+    'replaces the working copy. Optimality among all paths is not decided.')
 
 
 def check(ck):
@@ -58,27 +69,31 @@ def d2_top_path(ck, mod):
     # --- the frontier: `<tn> = Q.pop(<pos>)` inside a while loop over Q
     pops = [(l, c) for l in walk_local(fn) if isinstance(l, ast.While)
             for c in calls_in(l) if isinstance(c.func, ast.Attribute) and c.func.attr == 'pop' and isinstance(c.func.value, ast.Name)]
+    heap = None
     if not pops:
-        ck.missing(rule + '.pop', 'no `<queue>.pop(...)` inside a while loop in top_path: search loop not recognised')
-        return
-    loop, pop = pops[0]
-    Q = pop.func.value.id
-    if not pop.args or isinstance(pop.args[0], ast.Constant):
-        ck.bad(rule + '.pop', mod, pop, F, u(pop), 'the frontier is popped by position (%s): the node expanded next must be the one with the LARGEST '
-               'bottleneck so far (widest-path Dijkstra), not the first/last queued' % u(pop))
-        return
-    v = classify(fi.expand(pop.args[0]), ['_MF[%s].argmax()' % Q, 'int(_MF[%s].argmax())' % Q])
-    ck.decide(v, rule + '.pop', mod, pop, F, u(pop), 'frontier node with the LARGEST bottleneck is expanded next',
-              'the node popped must be the queue position of argmax(<bottleneck array>[queue]) (widest-path Dijkstra); '
-              'argmin / plain pop() expands a worse node first and finalises sub-optimal bottlenecks')
-    if v[0] != 'match' or not isinstance(v[1]['_MF'], ast.Name):
-        return
-    MF = v[1]['_MF'].id
-    pst = fi.stmt(pop)
-    if not (isinstance(pst, ast.Assign) and isinstance(pst.targets[0], ast.Name)):
-        ck.missing(rule + '.pop', 'popped node is not bound to a name')
-        return
-    TN = pst.targets[0].id
+        heap = _heap_frontier(ck, mod, fn, fi, rule, F)
+        if heap is None:
+            return
+        loop, Q, MF, TN = heap['loop'], heap['Q'], heap['MF'], heap['TN']
+    else:
+        loop, pop = pops[0]
+        Q = pop.func.value.id
+        if not pop.args or isinstance(pop.args[0], ast.Constant):
+            ck.bad(rule + '.pop', mod, pop, F, u(pop), 'the frontier is popped by position (%s): the node expanded next must be the one with the LARGEST '
+                   'bottleneck so far (widest-path Dijkstra), not the first/last queued' % u(pop))
+            return
+        v = classify(fi.expand(pop.args[0]), ['_MF[%s].argmax()' % Q, 'int(_MF[%s].argmax())' % Q])
+        ck.decide(v, rule + '.pop', mod, pop, F, u(pop), 'frontier node with the LARGEST bottleneck is expanded next',
+                  'the node popped must be the queue position of argmax(<bottleneck array>[queue]) (widest-path Dijkstra); '
+                  'argmin / plain pop() expands a worse node first and finalises sub-optimal bottlenecks')
+        if v[0] != 'match' or not isinstance(v[1]['_MF'], ast.Name):
+            return
+        MF = v[1]['_MF'].id
+        pst = fi.stmt(pop)
+        if not (isinstance(pst, ast.Assign) and isinstance(pst.targets[0], ast.Name)):
+            ck.missing(rule + '.pop', 'popped node is not bound to a name')
+            return
+        TN = pst.targets[0].id
     v = classify(loop.test, ['0 < len(%s)' % Q, Q, 'len(%s) != 0' % Q, 'len(%s)' % Q, '1 <= len(%s)' % Q])
     ck.decide(v, rule + '.loop', mod, loop, F, u(loop.test), 'search runs until the frontier is empty', 'the search loop must run while the queue is non-empty')
 
@@ -104,6 +119,12 @@ def d2_top_path(ck, mod):
     q0 = init_of(Q)
     if q0 is None:
         ck.missing(rule + '.init', 'initialisation of the queue')
+    elif heap is not None:
+        v = classify(fi.expand(q0.value, stop=(sources,)), ['[(-np.inf, int(_X)) for _X in %s]' % sources, '[(-np.inf, _X) for _X in %s]' % sources,
+                                                            '[(-%s[_X], _X) for _X in %s]' % (MF, sources), '[(-%s[_X], int(_X)) for _X in %s]' % (MF, sources),
+                                                            "[(float('-inf'), int(_X)) for _X in %s]" % sources], scope={sources, MF})
+        ck.decide(v, rule + '.init', mod, q0, F, u(q0), 'heap frontier starts as the source set (priority -inf = minus the source bottleneck)',
+                  'the heap must start as [(-inf, s) for s in sources]')
     else:
         v = classify(fi.expand(q0.value, stop=(sources,)), ['list(%s)' % sources, '[_X for _X in %s]' % sources, '%s.tolist()' % sources, 'list(%s.flatten())' % sources], scope={sources})
         ck.decide(v, rule + '.init', mod, q0, F, u(q0), 'frontier starts as the source set', 'the queue must start as list(sources)')
@@ -115,6 +136,22 @@ def d2_top_path(ck, mod):
         return
     V = vis[0][1].value.id
     ck.ok(rule + '.visited', mod, vis[0][0], u(vis[0][0]), 'popped node is finalised')
+    v0 = init_of(V)
+    if v0 is None:
+        ck.missing(rule + '.init', 'initialisation of %s' % V)
+    else:
+        vx = fi.expand(v0.value)
+        v = classify(vx, ['np.zeros(_N).astype(bool)', 'np.zeros(_N, dtype=bool)', 'np.zeros(_N, bool)', 'np.full(_N, False)', 'np.full(_N, False, dtype=bool)',
+                          'np.zeros(_N, dtype=np.bool_)', 'np.zeros(_N).astype(np.bool_)', 'np.zeros(_N, dtype="bool")', 'np.zeros(_N, dtype=int)', 'np.zeros(_N)'])
+        root = vx
+        while isinstance(root, ast.Call) and isinstance(root.func, ast.Attribute) and root.func.attr == 'astype':
+            root = root.func.value
+        if v[0] != 'match':
+            # positively wrong only if the array is known not to be all-False; any other spelling is not judged
+            wrong = isinstance(root, ast.Call) and call_name(root) in ('np.empty', 'np.empty_like', 'np.ones', 'np.ones_like')
+            v = ('near', 1, 'np.zeros(n).astype(bool)') if wrong else ('far', 0, None)
+        ck.decide(v, rule + '.init', mod, v0, F, u(v0), 'no state is finalised initially',
+                  'the finalised-mask must start all False: an uninitialised / all-True mask excludes arbitrary states from the relaxation')
 
     # --- the update: `MF[<idx>] = <val>` in the loop
     ups = [(s, t) for s, t in subscript_stores(loop, MF) if isinstance(s, ast.Assign)]
@@ -138,6 +175,7 @@ def d2_top_path(ck, mod):
     if v[0] != 'match':
         return
     NBX = u(canon(idx.value))                       # canonical text of the neighbour index set
+    _reach(ck, mod, fi, rule, F, loop, us, NBX, V, sinks)
     sel = v[1]['_SEL']
     # the relaxed values: `<val>` = NF[<sel>] where NF is the clipped edge-flux array
     val = fi.expand(us.value, strict=False)
@@ -203,7 +241,9 @@ def d2_top_path(ck, mod):
         else:
             ck.missing(rule + '.update', 'predecessor store `<prev>[<same index set>] = %s` not found' % TN)
     ext = [c for c in calls_in(loop) if isinstance(c.func, ast.Attribute) and c.func.attr == 'extend' and u(c.func.value) == Q]
-    if len(ext) == 1:
+    if heap is not None:
+        _heap_pushes(ck, mod, fi, rule, F, heap, loop, us, idx_t, V)
+    elif len(ext) == 1:
         ck.check(fi.xu(ext[0].args[0], strict=False) == idx_t, rule + '.update', mod, ext[0], F, u(ext[0]), 'improved neighbours join the frontier',
                  'the queue must be extended by exactly the updated neighbours (%s)' % idx_t[:80])
     else:
@@ -223,40 +263,348 @@ def d2_top_path(ck, mod):
         ck.missing(rule + '.report', 'single `return <path>, <flux>`')
         return
     rp, rf = r[0].value.elts
-    best = ['int(%s[%s[%s].argmax()])' % (sinks, MF, sinks), '%s[%s[%s].argmax()]' % (sinks, MF, sinks)]
-    # the path list P: reversed in the return value
-    vb = classify(fi.expand(rp), ['np.array(_P[::-1])', 'np.asarray(_P[::-1])', 'np.array(list(reversed(_P)))', 'np.array(_P)[::-1]'], near=3)
-    if vb[0] != 'match' or not isinstance(vb[1]['_P'], ast.Name):
-        ck.decide(vb if vb[0] != 'match' else 'far', rule + '.report', mod, r[0], F, u(r[0]), '', 'the path collected sink->source must be returned reversed (source->sink)')
+    _report(ck, mod, fn, fi, loop, r[0], rp, rf, sinks, MF, PN)
+
+
+def _assumes(fi, mod, stmt, within=None):
+    """Branch conditions known to hold whenever `stmt` executes: the synthetic
+    Assume nodes of the CFG that dominate it (insensitive to guard-clause vs
+    nested-if form), restricted to tests of ifs inside `within`."""
+    return [a for a in fi.cfg.dom.get(stmt, ()) if isinstance(a, Assume) and (within is None or _inside(mod, a.owner, within))]
+
+
+def _reach(ck, mod, fi, rule, F, loop, us, NBX, V, sinks):
+    """The relaxation `us` must run for every popped node that has neighbours,
+    as long as some sink is not finalised: every branch condition it depends
+    on inside the search loop must be one of these two (in any spelling /
+    nesting); the opposite condition is a violation."""
+    sink_done = {C('%s[%s].all()' % (V, sinks)), C('%s[%s].any()' % (V, sinks)), C('all(%s[%s])' % (V, sinks))}
+    count = {'len(%s)' % NBX, '%s.size' % NBX, '%s.shape[0]' % NBX}
+    for a in sorted(_assumes(fi, mod, us, loop), key=lambda a: a.lineno):
+        atoms = conjuncts(a.test, a.polarity)
+        txt = '%s%s' % ('' if a.polarity else 'not ', u(a.test))
+        if atoms is None:
+            ck.missing(rule + '.reach', 'condition `%s` under which the relaxation runs is not modelled' % txt[:100])
+            continue
+        for at in atoms:
+            verdict = None          # True: harmless, False: opposite of a required condition
+            if isinstance(at, Cmp):
+                l, r = fi.xu(at.lhs, strict=False), fi.xu(at.rhs, strict=False)
+                c = at if l in count else at.flipped() if r in count else None
+                k = const_value(c.rhs) if c is not None else None
+                if c is not None and isinstance(k, int) and not isinstance(k, bool):
+                    nonempty = (c.op is ast.Gt and k == 0) or (c.op is ast.NotEq and k == 0) or (c.op is ast.GtE and k == 1)
+                    empty = (c.op is ast.Eq and k == 0) or (c.op is ast.LtE and k == 0) or (c.op is ast.Lt and k == 1)
+                    verdict = True if nonempty else False if empty else None
+            else:
+                _, e, pol = at
+                t = fi.xu(e, strict=False)
+                if t in sink_done:
+                    verdict = not pol
+                elif t in count:
+                    verdict = bool(pol)
+            if verdict is None:
+                ck.missing(rule + '.reach', 'condition `%s` under which the relaxation runs is not modelled' % txt[:100])
+            else:
+                ck.check(verdict, rule + '.reach', mod, a.owner, F, txt, 'relaxation runs for every expanded node with neighbours while a sink is not finalised',
+                         'the relaxation `%s` only runs when `%s`: nodes that have outgoing flux (or every node until all sinks are finalised) are skipped, '
+                         'their neighbours never receive a bottleneck' % (u(us)[:60], txt[:80]))
+
+
+def _heap_frontier(ck, mod, fn, fi, rule, F):
+    """Priority-queue variant of the frontier: `<node> = heapq.heappop(Q)[1]` in a
+    while loop, entries `(-<bottleneck>[x], x)` pushed with heapq.heappush.  A
+    binary heap has no decrease-key: the order of the pops follows the CURRENT
+    bottlenecks only if every node whose bottleneck is raised is pushed again
+    with its new priority (checked in _heap_pushes)."""
+    hp = [(l, c) for l in walk_local(fn) if isinstance(l, ast.While)
+          for c in calls_in(l) if call_name(c) in ('heapq.heappop', 'heappop') and len(c.args) == 1 and isinstance(c.args[0], ast.Name)]
+    if not hp:
+        ck.missing(rule + '.pop', 'no `<queue>.pop(...)` / `heapq.heappop(<queue>)` inside a while loop in top_path: search loop not recognised')
+        return None
+    loop, pop = hp[0]
+    Q = pop.args[0].id
+    pst = fi.stmt(pop)
+    TN = None
+    if isinstance(pst, ast.Assign) and len(pst.targets) == 1:
+        t, val = pst.targets[0], pst.value
+        if isinstance(val, ast.Call) and call_name(val) == 'int' and len(val.args) == 1:
+            val = val.args[0]
+        if isinstance(t, ast.Name) and isinstance(val, ast.Subscript) and val.value is pop and const_value(val.slice) in (1, -1):
+            TN = t.id
+        elif isinstance(t, ast.Tuple) and len(t.elts) == 2 and isinstance(t.elts[1], ast.Name) and val is pop:
+            TN = t.elts[1].id
+    if TN is None:
+        ck.missing(rule + '.pop', 'node component of the popped heap entry `%s` is not bound to a name' % u(pst)[:80])
+        return None
+    pushes = [c for c in calls_in(loop) if call_name(c) in ('heapq.heappush', 'heappush') and len(c.args) == 2 and u(c.args[0]) == Q]
+    if not pushes or any(not (isinstance(c.args[1], ast.Tuple) and len(c.args[1].elts) == 2) for c in pushes):
+        ck.missing(rule + '.pop', '`heapq.heappush(%s, (<priority>, <node>))` in the search loop' % Q)
+        return None
+    MF = None
+    for c in pushes:
+        prio, node = c.args[1].elts
+        if isinstance(node, ast.Call) and call_name(node) == 'int' and len(node.args) == 1:
+            node = node.args[0]
+        nx = fi.xu(node)
+        v = classify(fi.expand(prio), ['-_MF[%s]' % nx, '-1 * _MF[%s]' % nx, '-float(_MF[%s])' % nx])
+        if v[0] != 'match':
+            v2 = classify(fi.expand(prio), ['_MF[%s]' % nx, 'float(_MF[%s])' % nx])
+            if v2[0] == 'match':
+                ck.bad(rule + '.pop', mod, c, F, u(c), 'heapq is a MIN-heap: with priority %s the node with the SMALLEST bottleneck is expanded first; '
+                       'the priority must be minus the bottleneck (widest-path Dijkstra expands the largest)' % u(prio))
+            else:
+                ck.missing(rule + '.pop', 'priority of `%s` is not minus the bottleneck of the pushed node' % u(c)[:100])
+            return None
+        if not isinstance(v[1]['_MF'], ast.Name) or (MF is not None and v[1]['_MF'].id != MF):
+            ck.missing(rule + '.pop', 'bottleneck array in the priority of `%s`' % u(c)[:100])
+            return None
+        MF = v[1]['_MF'].id
+    return {'loop': loop, 'Q': Q, 'MF': MF, 'TN': TN, 'pushes': pushes, 'pop': pop}
+
+
+def _heap_pushes(ck, mod, fi, rule, F, heap, loop, us, idx_t, V):
+    """Every node whose bottleneck was raised by the update store `us` (index
+    set idx_t) must be pushed with its NEW priority."""
+    if len(heap['pushes']) != 1:
+        ck.missing(rule + '.pop', 'exactly one heappush in the search loop (found %d)' % len(heap['pushes']))
         return
+    c = heap['pushes'][0]
+    ps = fi.stmt(c)
+    fl = mod.parent.get(ps)
+    node = c.args[1].elts[1]
+    if isinstance(node, ast.Call) and call_name(node) == 'int' and len(node.args) == 1:
+        node = node.args[0]
+    if not (isinstance(fl, ast.For) and isinstance(fl.target, ast.Name) and isinstance(node, ast.Name) and node.id == fl.target.id
+            and ps in fl.body and _every_iteration(mod, ps, fl) and not fl.orelse and _inside(mod, fl, loop)):
+        ck.missing(rule + '.pop', 'the push `%s` is not the body of a `for <node> in <updated nodes>` loop' % u(c)[:100])
+        return
+    if not fi.cfg.dominates(us, fl):
+        if fi.cfg.dominates(fl, us) and not fi.cfg.reachable(us, fl, avoiding=[loop]):
+            ck.bad(rule + '.pop', mod, fl, F, u(fl.iter), 'nodes are pushed before their bottleneck is updated: the heap priority is the OLD bottleneck')
+        else:
+            ck.missing(rule + '.pop', 'the pushes do not follow the bottleneck update on every path')
+        return
+    it = canon(fi.expand(fl.iter, strict=False))
+    if u(it) == idx_t:
+        ck.ok(rule + '.pop', mod, fl, u(fl.iter), 'every improved neighbour is pushed with its new priority: pops follow the current bottlenecks (stale entries are harmless)')
+        return
+    if isinstance(it, ast.Subscript) and u(it.value) == idx_t:
+        m = it.slice
+        m = m.args[0] if isinstance(m, ast.Call) and call_name(m) in ('np.where', 'np.nonzero') and m.args else m
+        vm = classify(m, ['~_A[%s]' % idx_t, '_A[%s] == 0' % idx_t, '_A[%s] == False' % idx_t, 'np.logical_not(_A[%s])' % idx_t, '1 - _A[%s]' % idx_t,
+                          'np.where(~_A[%s])' % idx_t])
+        if vm[0] == 'match' and isinstance(vm[1]['_A'], ast.Name) and vm[1]['_A'].id != V:
+            A = vm[1]['_A'].id
+            marks = [s for s, t in subscript_stores(loop, A) if const_value(s.value) is True and fi.xu(t.slice, strict=False) in (idx_t, u(it))]
+            if marks:
+                ck.bad(rule + '.pop', mod, fl, F, u(fl.iter)[:200],
+                       'only neighbours not yet marked in `%s` are pushed, but `%s` raises the bottleneck of ALL of %s: a node that is already in the heap keeps its '
+                       'old (smaller) priority - a binary heap has no decrease-key - so it is popped later than its current bottleneck demands and other nodes '
+                       '(sinks included) are finalised first with sub-optimal bottlenecks. The frontier node expanded next is then no longer the one with the '
+                       'LARGEST bottleneck; every improved node must be pushed again with its new priority' % (A, u(us), idx_t[:60]))
+                return
+    ck.missing(rule + '.pop', 'set of pushed nodes `%s` is not recognised as the set of updated neighbours `%s`' % (u(fl.iter)[:100], idx_t[:80]))
+
+
+def _report(ck, mod, fn, fi, loop, ret, rp, rf, sinks, MF, PN):
+    """Reconstruction of the path and the reported flux.  The path list P is
+    "the list the returned array is built from"; how it grows (append =
+    collected sink->source, insert(0, .) = built source->sink) fixes where the
+    walking head and the chosen sink sit and whether the return value has to
+    be reversed.  The back-trace loop is recognised modulo naming and loop
+    rotation (the link read once into a loop-carried name): test and pushed
+    value are compared after pexpand()."""
+    rule = 'C17.D2.search'
+    F = 'top_path'
+    best = ['int(%s[%s[%s].argmax()])' % (sinks, MF, sinks), '%s[%s[%s].argmax()]' % (sinks, MF, sinks)]
+    rev_forms = ['np.array(_P[::-1])', 'np.asarray(_P[::-1])', 'np.array(list(reversed(_P)))', 'np.array(_P)[::-1]', 'np.asarray(_P)[::-1]',
+                 'np.flip(np.array(_P))']
+    fwd_forms = ['np.array(_P)', 'np.asarray(_P)', 'np.array(list(_P))']
+    rpx = fi.expand(rp)
+    vr, vf = classify(rpx, rev_forms, near=3), classify(rpx, fwd_forms, near=1)
+    vb = vr if vr[0] == 'match' else vf
+    if vb[0] != 'match' or not isinstance(vb[1]['_P'], ast.Name):
+        ck.decide(vr if vr[0] != 'match' else 'far', rule + '.report', mod, ret, F, u(ret), '',
+                  'the path collected sink->source must be returned reversed (source->sink)')
+        return
+    ret_reversed = vr[0] == 'match'
     P = vb[1]['_P'].id
-    first = [c for c in calls_in(fn) if isinstance(c.func, ast.Attribute) and c.func.attr == 'append' and u(c.func.value) == P and not _in_loop(mod, c, fn)]
-    p0 = init_of_any(fn, P)
-    first_expr = None
-    if first:
-        first_expr = first[0].args[0]
-    elif p0 is not None and isinstance(p0.value, ast.List) and len(p0.value.elts) == 1:
+
+    # every in-place change of the path list must be a recognised growth step
+    grows = []
+    for s in fi._mutated_in_place(P):
+        g = _grow_call(s, P)
+        if g is None:
+            ck.missing(rule + '.report', 'statement `%s` changes the path list %s in a way the rule does not model' % (u(s)[:100], P))
+            return
+        grows.append((s,) + g)
+    p0s = [d for d in fi.rd.defs_at(ret, P)]
+    if len(p0s) != 1 or not isinstance(p0s[0], ast.Assign):
+        ck.missing(rule + '.report', 'single initialisation of the path list %s' % P)
+        return
+    p0 = p0s[0]
+    seeds = [g for g in grows if not _in_loop(mod, g[0], fn)]
+    steps = [g for g in grows if _in_loop(mod, g[0], fn)]
+    first_expr, first_at = None, p0
+    if isinstance(p0.value, ast.List) and len(p0.value.elts) == 1 and not seeds:
         first_expr = p0.value.elts[0]
+    elif (isinstance(p0.value, ast.List) and not p0.value.elts or u(p0.value) == 'list()') and len(seeds) == 1 \
+            and fi.cfg.dominates(p0, seeds[0][0]):
+        first_expr, first_at = seeds[0][2], seeds[0][0]
     if first_expr is None:
         ck.missing(rule + '.report', 'first element (chosen sink) of the path list %s' % P)
         return
     v = classify(fi.expand(first_expr, stop=(sinks,)), best, scope={sinks, MF})
-    ck.decide(v, rule + '.report', mod, first[0] if first else p0, F, u(first_expr), 'the sink with the largest bottleneck ends the path',
+    ck.decide(v, rule + '.report', mod, first_at, F, u(first_expr), 'the sink with the largest bottleneck ends the path',
               'the path must end at sinks[argmax(min_fluxes[sinks])]')
-    flux_ok = classify(fi.expand(rf, stop=(sinks,)), ['%s[%s[0]]' % (MF, P)] + ['%s[%s]' % (MF, b) for b in best], scope={MF, P, sinks})
-    ck.decide(flux_ok, rule + '.report', mod, r[0], F, u(rf), 'flux = bottleneck recorded at the chosen sink',
-              'the reported flux must be min_fluxes at the chosen sink (the first element of the reversed path)')
-    if PN is not None:
-        back = [l for l in walk_local(fn) if isinstance(l, ast.While) and l is not loop]
-        okb = False
-        for b in back:
-            t1 = classify(b.test, ['%s[%s[-1]] != -1' % (PN, P), '-1 != %s[%s[-1]]' % (PN, P), '0 <= %s[%s[-1]]' % (PN, P)])[0] == 'match'
-            a1 = any(isinstance(c.func, ast.Attribute) and c.func.attr == 'append' and u(c.func.value) == P and fi.xu(c.args[0]) == '%s[%s[-1]]' % (PN, P) for c in calls_in(b))
-            if t1 and a1:
-                okb = True
-                ck.ok(rule + '.report', mod, b, u(b.test), 'path rebuilt by following predecessor links to a source')
-        if not okb:
-            ck.missing(rule + '.report', 'back-trace loop `while %s[%s[-1]] != -1: %s.append(%s[%s[-1]])` not recognised' % (PN, P, P, PN, P))
+
+    back = [l for l in walk_local(fn) if isinstance(l, ast.While) and l is not loop and any(_inside(mod, g[0], l) for g in steps)]
+    if len(back) != 1 or len(steps) != 1 or not fi.cfg.dominates(first_at, back[0]):
+        ck.missing(rule + '.report', 'back-trace: exactly one while loop that extends the path list %s by one node per iteration '
+                   '(`while <prev>[%s[-1]] != -1: %s.append(<prev>[%s[-1]])` or its prepending / rotated forms) not recognised' % (P, P, P, P))
+        return
+    b, (gs, mode, garg) = back[0], steps[0]
+    head, sinkpos = ('%s[-1]' % P, '%s[0]' % P) if mode == 'append' else ('%s[0]' % P, '%s[-1]' % P)
+    if ret_reversed != (mode == 'append'):
+        ck.bad(rule + '.report', mod, ret, F, u(ret), 'the path list is %s but returned %s: states must be reported source -> sink' % (
+            'collected sink->source (append)' if mode == 'append' else 'built source->sink (insert(0, .))',
+            'reversed' if ret_reversed else 'as collected'))
+        return
+    flux_ok = classify(fi.expand(rf, stop=(sinks,)), ['%s[%s]' % (MF, sinkpos)] + ['%s[%s]' % (MF, x) for x in best], scope={MF, P, sinks})
+    ck.decide(flux_ok, rule + '.report', mod, ret, F, u(rf), 'flux = bottleneck recorded at the chosen sink',
+              'the reported flux must be min_fluxes at the chosen sink (the sink end of the path list)')
+    # loop test and pushed value: both must be the predecessor link of the current head
+    test = pexpand(fi, b.test)
+    vt = classify(test, ['_PN[%s] != -1' % head, '-1 != _PN[%s]' % head, '0 <= _PN[%s]' % head, '-1 < _PN[%s]' % head], scope={P} | ({PN} if PN else set()))
+    if vt[0] != 'match' or not isinstance(vt[1]['_PN'], ast.Name):
+        ck.decide(vt if vt[0] != 'match' else 'far', rule + '.report', mod, b, F, u(b.test), '',
+                  'the back-trace must run while the predecessor of the current head (%s) is not the sentinel -1' % head)
+        return
+    PNb = vt[1]['_PN'].id
+    if PN is not None and PNb != PN:
+        ck.bad(rule + '.report', mod, b, F, u(b.test), 'the back-trace follows `%s` but the search records predecessors in `%s`' % (PNb, PN))
+        return
+    others = [s for s in fi._mutated_in_place(PNb) if _inside(mod, s, b)]
+    if others:
+        ck.missing(rule + '.report', 'the predecessor array %s is modified inside the back-trace loop' % PNb)
+        return
+    ck.ok(rule + '.report', mod, b, u(b.test), 'back-trace runs until the head has no predecessor (sentinel -1)')
+    vg = classify(pexpand(fi, garg), ['%s[%s]' % (PNb, head), 'int(%s[%s])' % (PNb, head)], scope={PNb, P})
+    ck.decide(vg, rule + '.report', mod, gs, F, u(gs), 'path rebuilt by following predecessor links to a source',
+              'each step must add the predecessor of the current head: %s[%s]' % (PNb, head))
+    # the pushed value is the link that was tested: no step in between may move the head
+    if vg[0] == 'match' and not _every_iteration(mod, gs, b):
+        ck.missing(rule + '.report', 'the growth step `%s` is conditional inside the back-trace loop' % u(gs))
+
+
+def _every_iteration(mod, stmt, loop):
+    """stmt is a top-level statement of the loop body and no break/continue/return precedes it there."""
+    if stmt not in loop.body:
+        return False
+    for s in loop.body[:loop.body.index(stmt)]:
+        for x in ast.walk(s):
+            if isinstance(x, (ast.Break, ast.Continue, ast.Return, ast.Raise)):
+                return False
+    return True
+
+
+def _grow_call(s, P):
+    """('append'|'prepend', pushed expression) for `P.append(x)` / `P.insert(0, x)` statements."""
+    if not (isinstance(s, ast.Expr) and isinstance(s.value, ast.Call)):
+        return None
+    c = s.value
+    if not (isinstance(c.func, ast.Attribute) and isinstance(c.func.value, ast.Name) and c.func.value.id == P) or c.keywords:
+        return None
+    if c.func.attr == 'append' and len(c.args) == 1:
+        return ('append', c.args[0])
+    if c.func.attr == 'insert' and len(c.args) == 2 and const_value(c.args[0]) == 0 and type(const_value(c.args[0])) is int:
+        return ('prepend', c.args[1])
+    return None
+
+
+def pexpand(fi, expr, stop=(), depth=8):
+    """fi.expand() extended to loop-carried names: a Name reached by several
+    definitions `t = E` that all have the same (expanded) pure expression E,
+    none of whose operands can change between the definition and this use,
+    denotes E evaluated at the use (e.g. `t = prev[P[-1]]` before a loop and
+    again at the end of its body: at the loop test `t` IS `prev[P[-1]]`)."""
+    from ..normal import is_pure
+
+    def phi(e):
+        try:
+            defs = fi.defs_of_use(e)
+        except Exception:
+            return None
+        if len(defs) < 2 or any(d in ('PARAM', 'UNBOUND') for d in defs) or fi._mutated_in_place(e.id):
+            return None
+        use = fi.stmt(e)
+        vals = []
+        for site in defs:
+            if not isinstance(site, (ast.Assign, ast.AnnAssign)):
+                return None
+            v = fi.def_value(site, e.id)
+            if v is None or isinstance(v, ast.GeneratorExp) or not is_pure(v):
+                return None
+            for m in walk_expr(v):
+                if not (isinstance(m, ast.Name) and isinstance(m.ctx, ast.Load)):
+                    continue
+                if m.id == e.id or fi.rd.defs_at(site, m.id) != fi.rd.defs_at(use, m.id):
+                    return None
+                for ms in fi._mutated_in_place(m.id):
+                    if ms is use or ms is site:
+                        continue
+                    if fi.cfg.reachable(site, ms, avoiding=[use]) and fi.cfg.reachable(ms, use, avoiding=[site]):
+                        return None
+            vals.append(v)
+        return vals
+
+    def stable(e, vals):
+        # no operand may be changed in place on a cycle through the use that
+        # avoids every definition (definition before a loop, use inside it)
+        use = fi.stmt(e)
+        sites = [d for d in fi.defs_of_use(e) if d not in ('PARAM', 'UNBOUND')]
+        for v in vals:
+            for m in walk_expr(v):
+                if not (isinstance(m, ast.Name) and isinstance(m.ctx, ast.Load)):
+                    continue
+                for ms in fi._mutated_in_place(m.id):
+                    if ms in sites:
+                        continue
+                    if fi.cfg.reachable(use, ms, avoiding=sites) and (ms is use or fi.cfg.reachable(ms, use, avoiding=sites)):
+                        return False
+        return True
+
+    def ex(e, d):
+        if isinstance(e, ast.Name):
+            if d > 0 and e.id not in stop and isinstance(e.ctx, ast.Load):
+                v = fi.temp_value(e)
+                if v is not None and stable(e, [v]):
+                    return ex(v, d - 1)
+                vs = phi(e) if v is None else None
+                if vs and stable(e, vs):
+                    xs = [ex(v, d - 1) for v in vs]
+                    if len({u(canon(x)) for x in xs}) == 1:
+                        return xs[0]
+            return ast.copy_location(ast.Name(id=e.id, ctx=e.ctx), e)
+        if not isinstance(e, ast.AST):
+            return e
+        if isinstance(e, (ast.expr_context, ast.operator, ast.unaryop, ast.boolop, ast.cmpop)):
+            return e
+        new = type(e)()
+        for f in e._fields:
+            val = getattr(e, f, None)
+            if isinstance(val, list):
+                setattr(new, f, [ex(x, d) for x in val])
+            elif isinstance(val, ast.AST):
+                setattr(new, f, ex(val, d))
+            else:
+                setattr(new, f, val)
+        for a in ('lineno', 'col_offset', 'end_lineno', 'end_col_offset'):
+            if hasattr(e, a):
+                setattr(new, a, getattr(e, a))
+        return new
+    return ex(expr, depth)
 
 
 def _inside(mod, node, outer):
@@ -277,11 +625,6 @@ def _in_loop(mod, node, fn):
     return False
 
 
-def init_of_any(fn, name):
-    ds = [s for s in fn.body if isinstance(s, ast.Assign) and len(s.targets) == 1 and u(s.targets[0]) == name]
-    return ds[0] if ds else None
-
-
 def _and_atoms(mask):
     """Conjuncts of an elementwise mask built with & / np.logical_and."""
     if isinstance(mask, ast.BinOp) and isinstance(mask.op, ast.BitAnd):
@@ -291,101 +634,613 @@ def _and_atoms(mask):
     return [mask]
 
 
+# ---------------------------------------------------------------------------
+# D3: the two removal schemes
+
+_NEUTRAL_ATTRS = {'shape', 'dtype', 'ndim', 'size'}
+_READ_ONLY_CALLS = {'copy.copy', 'copy.deepcopy', 'len', 'np.array', 'np.shape', 'np.isinf', 'np.isnan', 'np.isfinite', 'np.count_nonzero'}
+
+
+def _copy_forms(p):
+    return ['copy.copy(%s)' % p, '%s.copy()' % p, 'copy.deepcopy(%s)' % p, 'np.array(%s, copy=True)' % p, 'np.array(%s, dtype=float)' % p]
+
+
+def _subst_names(node, mapping):
+    import copy as _copy
+
+    class R(ast.NodeTransformer):
+        def visit_Name(self, n):
+            return ast.copy_location(ast.Name(id=mapping.get(n.id, n.id), ctx=n.ctx), n)
+    return R().visit(_copy.deepcopy(node))
+
+
+def _matrix_effects(mod, fn, W, depth=1):
+    """Everything `fn` can do to the CONTENTS of the object bound to the name
+    W, found through the uses of W (not through pinned statement shapes):
+
+      events   subscript stores `W[idx] = v` / `W[idx] op= v`, with idx and v
+               expanded (fi.expand) - including the stores of a module-level
+               helper that is called as a statement with W as an argument
+               (one level of inlining, helper parameters renamed to the
+               caller's arguments);
+      lost     in-place updates of a NAMED sub-array `t = W[idx]; t op= v`
+               (for an advanced index t is a copy: the update never reaches W);
+      unknown  any other use through which W could be changed or aliased and
+               that the rule does not model (-> analysis incomplete).
+    """
+    from ..normal import PURE_METHODS
+    fi = finfo(mod, fn)
+    events, unknown, lost = [], [], []
+    for n in walk_local(fn):
+        if not (isinstance(n, ast.Name) and n.id == W):
+            continue
+        par = mod.parent.get(n)
+        if isinstance(n.ctx, ast.Store):
+            continue
+        if isinstance(par, ast.Subscript) and par.value is n:
+            st = fi.stmt(par)
+            if isinstance(par.ctx, ast.Store):
+                tg = st.targets if isinstance(st, ast.Assign) else [st.target] if isinstance(st, ast.AugAssign) else []
+                flat = [x for t in tg for x in (t.elts if isinstance(t, (ast.Tuple, ast.List)) else [t])]
+                if par in flat and len(flat) == 1:
+                    events.append({'stmt': st, 'kind': 'aug' if isinstance(st, ast.AugAssign) else 'store', 'op': getattr(st, 'op', None),
+                                   'idx': canon(fi.expand(par.slice, stop=(W,))), 'val': canon(fi.expand(st.value, stop=(W,))), 'text': u(st), 'line': getattr(st, 'lineno', 0)})
+                else:
+                    unknown.append((st, 'store into %s through `%s`' % (W, u(st)[:80])))
+            elif isinstance(par.ctx, ast.Del):
+                unknown.append((st, 'del %s' % u(par)))
+            else:
+                gp = mod.parent.get(par)
+                if isinstance(gp, ast.Assign) and gp.value is par and len(gp.targets) == 1 and isinstance(gp.targets[0], ast.Name):
+                    T = gp.targets[0].id
+                    for ms in fi._mutated_in_place(T):
+                        if gp in fi.rd.defs_at(ms, T):
+                            lost.append({'stmt': ms, 'temp': T, 'def': gp, 'idx': canon(fi.expand(par.slice, stop=(W,))), 'text': u(ms)})
+            continue
+        if isinstance(par, ast.Return) or isinstance(par, (ast.BinOp, ast.Compare, ast.UnaryOp)):
+            continue
+        if isinstance(par, ast.Attribute) and par.value is n:
+            gp = mod.parent.get(par)
+            if par.attr in _NEUTRAL_ATTRS:
+                continue
+            if isinstance(gp, ast.Call) and gp.func is par and par.attr in PURE_METHODS and par.attr not in ('view', 'reshape', 'ravel', 'transpose', 'squeeze', 'diagonal'):
+                continue
+            unknown.append((par, '`%s`' % u(gp if isinstance(gp, ast.Call) else par)[:80]))
+            continue
+        if isinstance(par, ast.Call) and n in par.args:
+            cn = call_name(par) or ''
+            if cn in _READ_ONLY_CALLS:
+                continue
+            st = fi.stmt(par)
+            callee = mod.functions.get(cn) if isinstance(par.func, ast.Name) else None
+            if callee is not None and depth > 0 and isinstance(st, ast.Expr) and st.value is par and not par.keywords \
+                    and all(isinstance(a, ast.Name) for a in par.args) and [a.id for a in par.args].count(W) == 1 \
+                    and len(params(callee)) == len(par.args) and not (callee.args.vararg or callee.args.kwarg):
+                cps = params(callee)
+                hW = cps[[a.id for a in par.args].index(W)]
+                if assigns_to(callee, hW):
+                    unknown.append((st, 'helper %s rebinds its matrix parameter' % cn))
+                    continue
+                mapping = dict(zip(cps, [a.id for a in par.args]))
+                for x in walk_local(callee):
+                    if isinstance(x, ast.Name) and isinstance(x.ctx, ast.Store) and x.id not in mapping:
+                        mapping[x.id] = '%s__in__%s' % (x.id, cn)
+                ev2, un2, lo2 = _matrix_effects(mod, callee, hW, depth - 1)
+                for e in ev2:
+                    e2 = dict(e, stmt=st, inner=e['stmt'], idx=_subst_names(e['idx'], mapping), val=_subst_names(e['val'], mapping),
+                              text='%s  ->  %s: %s' % (u(st), cn, e['text']), line=getattr(st, 'lineno', 0), via=cn)
+                    events.append(e2)
+                for _node, why in un2:
+                    unknown.append((st, 'in helper %s: %s' % (cn, why)))
+                for l in lo2:
+                    lost.append(dict(l, stmt=st, idx=_subst_names(l['idx'], mapping), text='%s  ->  %s: %s' % (u(st), cn, l['text'])))
+                continue
+            unknown.append((st, '%s is passed to `%s`' % (W, u(par)[:80])))
+            continue
+        unknown.append((n, '%s used in `%s`' % (W, u(fi.stmt(n) or par)[:80])))
+    events.sort(key=lambda e: (e['line'], getattr(e.get('inner'), 'lineno', 0)))
+    return events, unknown, lost
+
+
+def _is_zero(node):
+    v = const_value(node)
+    return v is not None and not isinstance(v, bool) and isinstance(v, (int, float)) and v == 0
+
+
 def d3_removal(ck, mod):
+    """Roles: the working matrix W is what the function returns; it must be
+    bound (once) to a copy of the matrix parameter.  What happens to W is read
+    off its stores (see _matrix_effects), compared after expansion."""
     rule = 'C17.D3.removal'
     for name in ('_subtract_path_flux', '_remove_bottleneck'):
         fn = mod.func(name)
         ck.analysed(mod, fn)
         fi = finfo(mod, fn)
         nf, path = params(fn)[:2]
-        cp = [s for s in assigns_to(fn, nf) if isinstance(s, ast.Assign)]
-        ok = len(cp) == 1 and u(cp[0].value) in ('copy.copy(%s)' % nf, '%s.copy()' % nf, 'np.array(%s)' % nf, 'np.copy(%s)' % nf, 'copy.deepcopy(%s)' % nf)
-        stores = [s for s, t in subscript_stores(fn, nf)]
-        ok = ok and all(fi.cfg.dominates(cp[0], s) for s in stores)
-        ck.check(ok, rule + '.copy', mod, cp[0] if cp else fn, name, u(cp[0]) if cp else 'copy', 'works on a copy made before the first store',
-                 '%s must rebind net_flux to a copy before storing into it' % name)
         r = returns_of(fn)
-        ck.check(len(r) == 1 and u(r[0].value) == nf, rule + '.copy', mod, r[0] if r else fn, name, u(r[0]) if r else 'return', 'returns the modified copy', 'must return the working matrix')
-        edges = '%s[%s[:-1], %s[1:]]' % (nf, path, path)
-        bn = [s for s in walk_local(fn) if isinstance(s, ast.Assign) and u(s.targets[0]) == 'bottleneck_ind']
-        ok = len(bn) == 1 and u(bn[0].value) in ('%s.argmin()' % edges, 'np.argmin(%s)' % edges)
-        ck.check(ok, rule + '.bottleneck', mod, bn[0] if bn else fn, name, u(bn[0]) if bn else 'bottleneck_ind',
-                 'bottleneck = argmin over the CONSECUTIVE edges of the path', 'bottleneck_ind must be argmin of net_flux[path[:-1], path[1:]]')
-        z = [s for s, t in subscript_stores(fn, nf) if u(t.slice) == '(%s[bottleneck_ind], %s[bottleneck_ind + 1])' % (path, path)
-             or u(t.slice) == '%s[bottleneck_ind], %s[bottleneck_ind + 1]' % (path, path)]
-        ok = len(z) == 1 and const_value(z[0].value) == 0
-        ck.check(ok, rule + '.bottleneck', mod, z[0] if z else fn, name, u(z[0]) if z else 'zero the bottleneck edge',
-                 'the bottleneck edge (path[k] -> path[k+1]) is removed', 'the edge path[bottleneck_ind] -> path[bottleneck_ind + 1] must be set to 0')
-        if name == '_subtract_path_flux':
-            sub = [s for s in walk_local(fn) if isinstance(s, ast.AugAssign) and isinstance(s.op, ast.Sub)]
-            ok = len(sub) == 1 and u(sub[0].target) == edges and u(sub[0].value) in ('%s.min()' % edges, 'np.min(%s)' % edges)
-            ck.check(ok, rule + '.subtract', mod, sub[0] if sub else fn, name, u(sub[0]) if sub else 'subtract',
-                     'the path flux is subtracted THROUGH to the working matrix on every edge of the path',
-                     'the subtract scheme must execute `net_flux[path[:-1], path[1:]] -= <min over the same edges>` on the '
-                     'working copy itself: subtracting on a temporary (advanced indexing returns a copy) loses the '
-                     'update, later paths re-use flux already explained')
-            if sub and z:
-                ck.check(fi.cfg.dominates(sub[0], z[0]), rule + '.subtract', mod, z[0], name, 'order', 'bottleneck zeroed after the subtraction', 'zeroing must follow the subtraction')
+        if len(r) != 1 or not isinstance(r[0].value, ast.Name):
+            ck.missing(rule + '.copy', '%s: a single `return <working matrix>`' % name)
+            continue
+        W = r[0].value.id
+        events, unknown, lost = _matrix_effects(mod, fn, W)
+        E = ['%s[:-1], %s[1:]' % (path, path), '%s[0:-1], %s[1:]' % (path, path), '%s[:len(%s) - 1], %s[1:]' % (path, path, path)]
+        epats = ['(%s)' % e for e in E]
+        # an update of a named sub-array is known to be LOST only for the advanced index (path[:-1], path[1:]) (a copy);
+        # for any other index the name may be a view of the working matrix
+        for l in [l for l in lost if classify(l['idx'], epats)[0] != 'match']:
+            lost.remove(l)
+            unknown.append((l['stmt'], '`%s` updates `%s`, a sub-array of %s that may be a view' % (l['text'][:60], l['temp'], W)))
+        for _node, why in unknown[:3]:
+            ck.missing(rule, '%s: use of the working matrix not modelled: %s' % (name, why))
+        complete = not unknown
+        # ---- works on a copy; returns it
+        uses = [(e['stmt'], e['text']) for e in events] + [(r[0], u(r[0]))]
+        sites = set()
+        for s, _ in uses:
+            sites |= fi.rd.defs_at(s, W)
+        if 'PARAM' in sites:
+            s, txt = [(s, t) for s, t in uses if 'PARAM' in fi.rd.defs_at(s, W)][0]
+            ck.bad(rule + '.copy', mod, s, name, txt, '%s must rebind net_flux to a copy before storing into it: here `%s` still is the caller\'s matrix' % (name, W))
+        elif len(sites) == 1 and isinstance(list(sites)[0], ast.Assign) and fi.rd.defs_at(list(sites)[0], nf) == {'PARAM'}:
+            cp = list(sites)[0]
+            v = classify(fi.expand(cp.value, stop=(nf,)), _copy_forms(nf), scope={nf})
+            ck.decide(v, rule + '.copy', mod, cp, name, u(cp), 'works on a copy made before the first store',
+                      '%s must rebind net_flux to a copy before storing into it' % name)
+            ck.ok(rule + '.copy', mod, r[0], u(r[0]), 'returns the modified copy')
+        else:
+            ck.missing(rule + '.copy', '%s: the working matrix `%s` is not bound exactly once (to a copy of `%s`) before its stores' % (name, W, nf))
+        # ---- the bottleneck edge is zeroed
+        Ks = ['%s[%s].argmin()' % (W, e) for e in E]
+        Ks += ['int(%s)' % k for k in Ks]
+        zpats = ['(%s[%s], %s[%s + 1])' % (path, k, path, k) for k in Ks] + ['(%s[%s], %s[1 + %s])' % (path, k, path, k) for k in Ks]
+        zero = [e for e in events if e['kind'] == 'store' and _is_zero(e['val'])]
+        rest = [e for e in events if e not in zero]
+        z = None
+        if len(zero) == 1:
+            z = zero[0]
+            v = classify(z['idx'], zpats, scope={W, path})
+            ck.decide(v, rule + '.bottleneck', mod, z['stmt'], name, z['text'],
+                      'the bottleneck edge path[k] -> path[k+1], k = argmin over the CONSECUTIVE edges of the path, is removed',
+                      'the edge set to 0 must be path[k] -> path[k + 1] with k = argmin of net_flux[path[:-1], path[1:]] (evaluated on the working matrix)')
+        elif not zero and complete and (not rest or name == '_subtract_path_flux' and all(e['kind'] == 'aug' for e in rest)):
+            l = lost[0] if lost else None
+            ck.bad(rule + '.bottleneck', mod, l['stmt'] if l else fn, name, l['text'] if l else 'zero the bottleneck edge',
+                   'the edge path[bottleneck_ind] -> path[bottleneck_ind + 1] must be set to 0 in the working matrix' +
+                   (' (the store goes to `%s`, a copy made by advanced indexing)' % l['temp'] if l else ''))
+        else:
+            ck.missing(rule + '.bottleneck', '%s: exactly one store `%s[path[k], path[k + 1]] = 0` (found %d zero store(s), %d other store(s))' % (
+                name, W, len(zero), len(rest)))
+        if name == '_remove_bottleneck':
+            if rest:
+                ck.missing(rule + '.bottleneck', '_remove_bottleneck: additional store into the working matrix: %s' % rest[0]['text'][:100])
+            continue
+        # ---- subtract scheme: the path flux is subtracted on every edge of the path, in the working matrix
+        mins = ['%s[%s].min()' % (W, e) for e in E] + ['min(%s[%s])' % (W, e) for e in E]
+        cand = list(rest)
+        if len(cand) == 1:
+            s = cand[0]
+            vi = classify(s['idx'], epats, scope={path})
+            if s['kind'] == 'aug':
+                vv = classify(s['val'], mins, scope={W, path})
+                if vv[0] == 'match' and not isinstance(s['op'], ast.Sub):
+                    vv = ('near', 1, '%s[%s] -= %s' % (W, E[0], mins[0]))
+            else:
+                vv = classify(s['val'], ['%s[%s] - %s' % (W, e, m) for e in E for m in mins if e in m], scope={W, path})
+            both = vi if vi[0] != 'match' else vv
+            ck.decide(both, rule + '.subtract', mod, s['stmt'], name, s['text'],
+                      'the path flux is subtracted THROUGH to the working matrix on every edge of the path',
+                      'the subtract scheme must execute `net_flux[path[:-1], path[1:]] -= <min over the same edges>` on the working copy itself')
+            if z is not None:
+                ck.check(s['stmt'] is not z['stmt'] and fi.cfg.dominates(s['stmt'], z['stmt']), rule + '.subtract', mod, z['stmt'], name, 'order',
+                         'bottleneck zeroed after the subtraction', 'zeroing must follow the subtraction')
+        elif not rest and complete:
+            subl = [l for l in lost if isinstance(l['stmt'], ast.AugAssign) or l.get('via')] or lost
+            l = subl[0] if subl else None
+            ck.bad(rule + '.subtract', mod, l['stmt'] if l else fn, name, l['text'] if l else 'subtract',
+                   'the subtract scheme must execute `net_flux[path[:-1], path[1:]] -= <min over the same edges>` on the '
+                   'working copy itself: subtracting on a temporary (advanced indexing returns a copy) loses the '
+                   'update, later paths re-use flux already explained' + (' [`%s` is %s[%s], a copy]' % (l['temp'], W, u(l['idx'])[:60]) if l else
+                                                                          ' [no store into the working matrix subtracts anything]'))
+        else:
+            ck.missing(rule + '.subtract', '_subtract_path_flux: exactly one subtracting store into the working matrix (found %d candidate(s) among %d store(s))' % (
+                len(cand), len(rest)))
+
+
+# ---------------------------------------------------------------------------
+# D4: the cut-off loop of paths()
+
+def _object_mutations(fi, name):
+    """fi._mutated_in_place without the plain rebindings whose value merely calls a pure method of the old object (`x = x.copy()`)."""
+    from ..normal import PURE_METHODS
+    out = []
+    for s in fi._mutated_in_place(name):
+        if isinstance(s, ast.Assign) and all(isinstance(t, ast.Name) for t in s.targets) and all(
+                c.func.attr in PURE_METHODS for c in ast.walk(s.value)
+                if isinstance(c, ast.Call) and isinstance(c.func, ast.Attribute) and isinstance(c.func.value, ast.Name) and c.func.value.id == name):
+            continue
+        out.append(s)
+    return out
+
+
+def _loop_of(mod, node, fn):
+    p = mod.parent.get(node)
+    while p is not None and p is not fn:
+        if isinstance(p, (ast.For, ast.While)):
+            return p
+        p = mod.parent.get(p)
+    return None
+
+
+def _break_polarity(g):
+    """True if the body of `if` g leaves the loop (break as a top-level statement
+    of the body), False if the else branch does, None otherwise."""
+    if any(isinstance(x, ast.Break) for x in g.body):
+        return True
+    if any(isinstance(x, ast.Break) for x in g.orelse):
+        return False
+    return None
 
 
 def d4_paths(ck, mod):
+    """The constructs are located by role: the search call `top_path(...)`
+    fixes the loop, the working matrix (its third argument), the path and the
+    flux; the lists are "what the path / the flux is appended to"; the
+    counter and the explained fraction are "what is compared with the
+    num_paths / flux_cutoff parameter in a guard that leaves the loop"; the
+    removal is "the call whose result is rebound to the working matrix"."""
     rule = 'C17.D4.paths'
+    F = 'paths'
     fn = mod.func('paths')
     ck.analysed(mod, fn)
     fi = finfo(mod, fn)
+    cfg = fi.cfg
     sources, sinks, nf, rp, npaths, cutoff = params(fn)[:6]
-    # registry
-    reg = {}
-    for n in walk_local(fn):
-        if isinstance(n, ast.If):
-            cs = conjuncts(n.test, True)
-            if cs and len(cs) == 1 and isinstance(cs[0], Cmp) and cs[0].op is ast.Eq and u(cs[0].lhs) == rp and isinstance(cs[0].rhs, ast.Constant):
-                for s in n.body:
-                    if isinstance(s, ast.Assign) and u(s.targets[0]) == rp:
-                        reg[cs[0].rhs.value] = u(s.value)
-    ck.check(reg == {'subtract': '_subtract_path_flux', 'bottleneck': '_remove_bottleneck'}, rule + '.registry', mod, fn, 'paths', str(reg),
-             "scheme names map to their functions", "'subtract' must map to _subtract_path_flux and 'bottleneck' to _remove_bottleneck")
-    cp = [s for s in assigns_to(fn, nf) if isinstance(s, ast.Assign) and 'copy' in u(s.value)]
-    ck.check(len(cp) == 1 and u(cp[0].value) in ('copy.copy(%s)' % nf, '%s.copy()' % nf, 'np.array(%s)' % nf, 'copy.deepcopy(%s)' % nf), rule + '.copy', mod,
-             cp[0] if cp else fn, 'paths', u(cp[0]) if cp else 'copy', 'paths works on its own copy of the flux matrix', 'paths must copy net_flux before the loop')
-    tf = [s for s in walk_local(fn) if isinstance(s, ast.Assign) and u(s.targets[0]) == 'total_flux']
-    ok = len(tf) == 1 and u(tf[0].value) in ('%s[%s, :].sum()' % (nf, sources), '%s[%s].sum()' % (nf, sources), 'np.sum(%s[%s, :])' % (nf, sources))
-    ck.check(ok, rule + '.total', mod, tf[0] if tf else fn, 'paths', u(tf[0]) if tf else 'total_flux', 'total = outflow of the sources (rows)', 'total_flux must be the sum of the source ROWS')
-    loops = [l for l in fn.body if isinstance(l, ast.While)]
-    if not loops:
-        ck.missing(rule, 'main loop of paths')
+
+    # ---- the search call
+    calls = [c for c in calls_in(fn) if call_name(c) == 'top_path']
+    if len(calls) != 1:
+        ck.missing(rule + '.search', 'exactly one call of top_path in paths (found %d)' % len(calls))
         return
-    loop = loops[0]
-    body = loop.body
-    tp = [s for s in body if isinstance(s, ast.Assign) and isinstance(s.value, ast.Call) and call_name(s.value) == 'top_path']
-    ok = len(tp) == 1 and [u(a) for a in tp[0].value.args] == [sources, sinks, nf] and u(tp[0].targets[0]) == '(path, flux)'
-    ck.check(ok, rule + '.search', mod, tp[0] if tp else loop, 'paths', u(tp[0]) if tp else 'top_path', 'next path found on the CURRENT working matrix',
-             'path, flux = top_path(sources, sinks, net_flux) expected on the working copy')
-    rec = [s for s in body if isinstance(s, ast.Expr) and isinstance(s.value, ast.Call) and u(s.value.func) in ('paths.append', 'fluxes.append')]
-    acc = [s for s in body if isinstance(s, ast.AugAssign) and u(s.target) == 'expl_flux']
-    cnt = [s for s in body if isinstance(s, ast.AugAssign) and u(s.target) == 'counter']
-    test = [s for s in body if isinstance(s, ast.If) and any(isinstance(x, ast.Break) for x in s.body) and ('counter' in u(s.test) or 'expl_flux' in u(s.test))]
-    rem = [s for s in body if isinstance(s, ast.Assign) and isinstance(s.value, ast.Call) and u(s.value.func) == rp]
-    ok = len(rec) == 2 and len(acc) == 1 and len(cnt) == 1 and len(test) == 1 and len(rem) == 1
-    if ok:
-        idx = {id(s): i for i, s in enumerate(body)}
-        order = max(idx[id(s)] for s in rec + acc + cnt) < idx[id(test[0])] < idx[id(rem[0])]
-        ck.check(order, rule + '.order', mod, test[0], 'paths', 'record -> test -> remove', 'path is recorded, then the limits are tested, then the path is removed',
-                 'the loop must record the path, test the limits, and only then remove the path')
-        t = test[0].test
-        okt = isinstance(t, ast.BoolOp) and isinstance(t.op, ast.Or) and sorted(u(v) for v in t.values) == sorted(
-            [C('counter >= %s' % npaths), C('expl_flux >= %s' % cutoff)])
-        ck.check(okt, rule + '.limits', mod, test[0], 'paths', u(t), 'stop when the requested number of paths OR the explained fraction is reached',
-                 'the stop test must be `counter >= num_paths or expl_flux >= flux_cutoff` (>: one path too many; and: ignores one limit)')
-        ck.check(u(acc[0].value) == 'flux / total_flux' and isinstance(acc[0].op, ast.Add), rule + '.limits', mod, acc[0], 'paths', u(acc[0]),
-                 'explained fraction accumulates flux / total', 'expl_flux += flux / total_flux expected')
-        ck.check(u(rem[0].targets[0]) == nf and [u(a) for a in rem[0].value.args] == [nf, 'path'], rule + '.replace', mod, rem[0], 'paths', u(rem[0]),
-                 'the removal result replaces the working matrix', 'net_flux = remove_path(net_flux, path) expected: otherwise the same path is found again')
+    call = calls[0]
+    tps = fi.stmt(call)
+    loop = _loop_of(mod, call, fn)
+    if not (isinstance(tps, ast.Assign) and tps.value is call and len(tps.targets) == 1 and isinstance(tps.targets[0], ast.Tuple)
+            and len(tps.targets[0].elts) == 2 and all(isinstance(e, ast.Name) for e in tps.targets[0].elts)) or not isinstance(loop, ast.While):
+        ck.missing(rule + '.search', '`<path>, <flux> = top_path(...)` inside a while loop')
+        return
+    PATH, FLUX = [e.id for e in tps.targets[0].elts]
+    tpp = params(mod.func('top_path'))[:3]
+    amap = dict(zip(tpp, call.args))
+    for k in call.keywords:
+        if k.arg in tpp and k.arg not in amap:
+            amap[k.arg] = k.value
+    if len(amap) != 3 or len(call.args) > 3 or any(isinstance(a, ast.Starred) for a in call.args) or not isinstance(amap[tpp[2]], ast.Name):
+        ck.missing(rule + '.search', 'arguments of `%s`' % u(call))
+        return
+    W = amap[tpp[2]].id
+    vs = classify(ast.Tuple(elts=[fi.expand(amap[tpp[0]], stop=(sources, sinks, W)), fi.expand(amap[tpp[1]], stop=(sources, sinks, W))], ctx=ast.Load()),
+                  ['(%s, %s)' % (sources, sinks)], scope={sources, sinks, W, nf})
+    ck.decide(vs, rule + '.search', mod, tps, F, u(tps), 'the search runs from the sources to the sinks', 'top_path must be called with (sources, sinks, <working matrix>)')
+    if fi.xu(loop.test) not in ('True', '1'):
+        ck.missing(rule + '.loop', 'loop condition `%s` of the path loop is not constant: exits through the loop test are not modelled' % u(loop.test))
+        return
+
+    # ---- the removal: `W = <callable>(W, PATH)` in the loop; W is a copy of the parameter before the loop
+    rebinds = [s for s in assigns_to(loop, W)]
+    rem = [s for s in rebinds if isinstance(s, ast.Assign) and len(s.targets) == 1 and isinstance(s.targets[0], ast.Name) and isinstance(s.value, ast.Call)
+           and isinstance(s.value.func, ast.Name)]
+    wdefs = fi.rd.defs_at(tps, W)
+    RPN = None
+    if len(rebinds) == 1 and len(rem) == 1:
+        rm = rem[0]
+        RPN = rm.value.func.id
+        va = classify(ast.Tuple(elts=[fi.expand(a, stop=(W,)) for a in rm.value.args], ctx=ast.Load()), ['(%s, %s)' % (W, PATH)], scope={W, PATH, FLUX, nf}) \
+            if not rm.value.keywords else ('far', 0, None)
+        ck.decide(va, rule + '.replace', mod, rm, F, u(rm), 'the removal result replaces the working matrix',
+                  'net_flux = remove_path(net_flux, path) expected: otherwise the same path is found again')
+        if rm not in wdefs:
+            ck.bad(rule + '.replace', mod, rm, F, u(rm), 'the matrix returned by the removal never reaches the next top_path call')
+    elif not rebinds:
+        dropped = [c for c in calls_in(loop) if isinstance(c.func, ast.Name) and isinstance(fi.stmt(c), ast.Expr) and fi.stmt(c).value is c
+                   and [u(a) for a in c.args] == [W, PATH]]
+        if dropped:
+            ck.bad(rule + '.replace', mod, dropped[0], F, u(dropped[0]), 'the result of the removal is discarded: the working matrix is never replaced, the same path is found again')
+            RPN = dropped[0].func.id
+        else:
+            ck.missing(rule + '.replace', 'removal step `%s = <remove_path>(%s, %s)` in the loop' % (W, W, PATH))
+        rm = None
     else:
-        ck.bad(rule + '.order', mod, loop, 'paths', 'loop body', 'expected record(2 appends)/accumulate/count/test/remove statements in the loop; found %d/%d/%d/%d/%d' % (
-            len(rec), len(acc), len(cnt), len(test), len(rem)))
-    inf = [s for s in body if isinstance(s, ast.If) and 'np.isinf(flux)' in u(s.test) and any(isinstance(x, ast.Break) for x in s.body)]
-    ck.check(len(inf) == 1 and body.index(inf[0]) < body.index(rec[0]) if rec and inf else False, rule + '.no-path', mod, inf[0] if inf else loop, 'paths',
-             u(inf[0].test) if inf else 'isinf', 'stop (without recording) when no source->sink path is left', 'an infinite flux (no path) must end the loop before anything is recorded')
+        ck.missing(rule + '.replace', 'the working matrix `%s` is rebound %d times in the loop' % (W, len(rebinds)))
+        return
+    outer = [d for d in wdefs if d is not rm]
+    if 'PARAM' in outer:
+        ck.bad(rule + '.copy', mod, tps, F, 'copy', 'paths must copy net_flux before the loop: the search and the removal functions would receive the caller\'s matrix')
+    elif len(outer) == 1 and isinstance(outer[0], ast.Assign) and not _inside(mod, outer[0], loop) and fi.rd.defs_at(outer[0], nf) == {'PARAM'}:
+        v = classify(fi.expand(outer[0].value, stop=(nf,)), _copy_forms(nf), scope={nf})
+        ck.decide(v, rule + '.copy', mod, outer[0], F, u(outer[0]), 'paths works on its own copy of the flux matrix', 'paths must copy net_flux before the loop')
+    else:
+        ck.missing(rule + '.copy', 'definition of the working matrix `%s` before the loop' % W)
+
+    # ---- registry: scheme names -> functions.  Every binding `<callable> = <scheme function>` is judged by the
+    # branch conditions that dominate it (CFG assumes: insensitive to nesting / elif chains / guard clauses)
+    if RPN is not None:
+        want = {'subtract': '_subtract_path_flux', 'bottleneck': '_remove_bottleneck'}
+        reg, odd, wrong = {}, [], []
+        binds = [s for s in assigns_to(fn, RPN) if s is not rm]
+        for s in binds:
+            val = u(s.value) if isinstance(s, ast.Assign) and len(s.targets) == 1 and isinstance(s.targets[0], ast.Name) else None
+            if val == rp and fi.rd.defs_at(s, rp) == {'PARAM'}:
+                continue                                     # the caller's own callable is passed through
+            if val not in want.values() or _inside(mod, s, loop):
+                odd.append(s)
+                continue
+            own = [k for k in want if want[k] == val][0]
+            eq, ne, under_callable = set(), set(), None
+            for a in _assumes(fi, mod, s):
+                for at in conjuncts(a.test, a.polarity) or [None]:
+                    if isinstance(at, Cmp) and at.op in (ast.Eq, ast.NotEq):
+                        x, c = (at.lhs, at.rhs) if not isinstance(at.lhs, ast.Constant) else (at.rhs, at.lhs)
+                        if isinstance(x, ast.Name) and x.id == rp and fi.defs_of_use(x) == {'PARAM'} and isinstance(c, ast.Constant) and isinstance(c.value, str):
+                            (eq if at.op is ast.Eq else ne).add(c.value)
+                            continue
+                    if isinstance(at, tuple) and u(at[1]) == 'callable(%s)' % rp:
+                        if at[2]:
+                            under_callable = a.owner
+                        continue
+                    odd.append(a.owner)
+            if under_callable is not None:
+                wrong.append((under_callable, 'callable(%s)' % rp, "the scheme names are only looked up when %s is callable: 'subtract' / 'bottleneck' are "
+                              "never mapped to their functions" % rp))
+            elif own in ne or (eq and own not in eq):
+                wrong.append((s, u(s), "`%s` is bound when %s is %s: '%s' must select %s" % (
+                    val, rp, ' / '.join(['not %r' % k for k in sorted(ne)] + [repr(k) for k in sorted(eq)]), own, val)))
+            elif own in eq:
+                reg[own] = val
+            else:
+                odd.append(s)
+        rdefs = fi.rd.defs_at(rm, RPN) if rm is not None else set()
+        for d in rdefs:
+            if not (d == 'PARAM' and RPN == rp) and d not in binds:
+                odd.append(d)
+        seen = set()
+        for node, construct, why in wrong:
+            if construct not in seen:
+                seen.add(construct)
+                ck.bad(rule + '.registry', mod, node, F, construct, why + " ('subtract' must map to _subtract_path_flux and 'bottleneck' to _remove_bottleneck)")
+        if not wrong:
+            if reg == want and not odd:
+                ck.ok(rule + '.registry', mod, fn, str(reg), 'scheme names map to their functions')
+            else:
+                ck.missing(rule + '.registry', "binding of the removal callable `%s` from the scheme names 'subtract' / 'bottleneck' (recognised: %s)" % (RPN, reg))
+
+    # ---- recording
+    def appends(x):
+        out = []
+        for c in calls_in(loop):
+            if isinstance(c.func, ast.Attribute) and c.func.attr == 'append' and isinstance(c.func.value, ast.Name) and len(c.args) == 1 \
+                    and fi.xu(c.args[0]) == x and fi.defs_of_use(c.args[0]) == {tps}:
+                out.append(c)
+        return out
+    recp, recf = appends(PATH), appends(FLUX)
+    if len(recp) != 1 or len(recf) != 1:
+        ck.missing(rule + '.order', 'recording steps `<paths>.append(%s)` and `<fluxes>.append(%s)` in the loop (found %d / %d)' % (PATH, FLUX, len(recp), len(recf)))
+        return
+    PATHS, FLUXES = recp[0].func.value.id, recf[0].func.value.id
+    rec = [fi.stmt(recp[0]), fi.stmt(recf[0])]
+    for L, st in ((PATHS, rec[0]), (FLUXES, rec[1])):
+        ds = [d for d in fi.rd.defs_at(st, L)]
+        okl = len(ds) == 1 and isinstance(ds[0], ast.Assign) and not _inside(mod, ds[0], loop) and u(ds[0].value) in ('[]', 'list()') \
+            and _object_mutations(fi, L) == [st]
+        if not okl:
+            ck.missing(rule + '.order', 'the result list `%s` is not an empty list that only grows by the one append in the loop' % L)
+            return
+
+    # ---- guards that leave the loop
+    guards = []
+    exits = [x for x in walk_local(loop) if isinstance(x, (ast.Break, ast.Continue, ast.Return, ast.Raise))]
+    for g in [x for x in walk_local(loop) if isinstance(x, ast.If) and _loop_of(mod, x, fn) is loop]:
+        pol = _break_polarity(g)
+        if pol is None:
+            continue
+        branch = g.body if pol else g.orelse
+        exits = [x for x in exits if x not in branch]
+        cont = conjuncts(g.test, not pol)
+        guards.append((g, pol, cont, branch))
+    if exits:
+        ck.missing(rule + '.order', 'exit from the path loop not modelled: `%s`' % u(exits[0])[:80])
+        return
+    nopath_forms = ['np.isinf(%s)' % FLUX, '%s == -np.inf' % FLUX, '-np.inf == %s' % FLUX, "%s == float('-inf')" % FLUX, 'np.isneginf(%s)' % FLUX]
+    atoms = {'count': [], 'expl': [], 'nopath': [], 'nopath_inv': [], 'other': []}
+    for g, pol, cont, branch in guards:
+        if cont is None:
+            stop = conjuncts(g.test, pol) or []
+            names = set()
+            for a in stop:
+                for e in ((a.lhs, a.rhs) if isinstance(a, Cmp) else (a[1],)):
+                    names |= names_loaded(e)
+            if names & {npaths, cutoff}:
+                ck.bad(rule + '.limits', mod, g, F, u(g.test), 'the loop must stop when the requested number of paths OR the explained fraction is reached: '
+                       'this test needs several conditions at once (and: ignores one limit)')
+                return
+            atoms['other'].append((g, None))
+            continue
+        for a in cont:
+            if isinstance(a, Cmp):
+                less = a.as_less()
+                sides = (fi.xu(a.lhs), fi.xu(a.rhs))
+                if npaths in sides and less is not None:
+                    atoms['count'].append((g, a))
+                elif cutoff in sides and less is not None:
+                    atoms['expl'].append((g, a))
+                elif a.op in (ast.NotEq, ast.Eq) and classify(ast.Compare(left=a.lhs, ops=[ast.Eq()], comparators=[a.rhs]), nopath_forms)[0] == 'match':
+                    atoms['nopath' if a.op is ast.NotEq else 'nopath_inv'].append((g, a))
+                else:
+                    atoms['other'].append((g, a))
+            else:
+                _, e, p = a
+                ex = fi.expand(e)
+                isinf_, isfin_ = classify(ex, nopath_forms)[0] == 'match', classify(ex, ['np.isfinite(%s)' % FLUX])[0] == 'match'
+                if (isinf_ and not p) or (isfin_ and p):
+                    atoms['nopath'].append((g, a))
+                elif isinf_ or isfin_:
+                    atoms['nopath_inv'].append((g, a))
+                else:
+                    atoms['other'].append((g, a))
+    if atoms['other']:
+        g, a = atoms['other'][0]
+        ck.missing(rule + '.limits', 'condition `%s` of a guard that leaves the path loop is not modelled' % u(g.test)[:100])
+        return
+
+    # ---- no path left: stop before anything is recorded
+    for g, a in atoms['nopath_inv']:
+        ck.bad(rule + '.no-path', mod, g, F, u(g.test), 'the loop goes on only when the flux IS infinite (no path found) and stops as soon as a real path is found')
+    if atoms['nopath_inv']:
+        return
+    early = [(g, a) for g, a in atoms['nopath'] if cfg.dominates(tps, g) and all(cfg.dominates(g, s) and not _inside(mod, s, g) for s in rec)]
+    if early:
+        ck.ok(rule + '.no-path', mod, early[0][0], u(early[0][0].test), 'stop (without recording) when no source->sink path is left')
+    elif atoms['nopath']:
+        g = atoms['nopath'][0][0]
+        ck.bad(rule + '.no-path', mod, g, F, u(g.test), 'an infinite flux (no path) must end the loop before anything is recorded: here the test is made '
+               'after `%s`, so the sentinel result of top_path is returned as a pathway' % u(rec[0]))
+    else:
+        between = [x for x in walk_local(loop) if isinstance(x, ast.If) and cfg.dominates(x, rec[0]) and names_loaded(x.test) & {FLUX, PATH}]
+        if between:
+            ck.missing(rule + '.no-path', 'guard `%s` before the recording step not recognised as the no-path test' % u(between[0].test)[:80])
+        else:
+            ck.bad(rule + '.no-path', mod, rec[0], F, 'isinf', 'an infinite flux (no path) must end the loop before anything is recorded: '
+                   'no test of the flux precedes `%s`' % u(rec[0]))
+
+    # ---- limits
+    def limit(kind, param, what):
+        """the guard atom `<quantity> < param` (continue condition); returns (guard, quantity expr) or None"""
+        al = atoms[kind]
+        if not al:
+            used = [n for n in walk_local(fn) if isinstance(n, ast.Name) and n.id == param and isinstance(n.ctx, ast.Load)]
+            if not used:
+                ck.bad(rule + '.limits', mod, loop, F, param, 'the parameter %s is never tested: %s' % (param, what))
+            else:
+                ck.missing(rule + '.limits', 'test of %s in a guard that leaves the loop' % param)
+            return None
+        if len(al) > 1:
+            ck.missing(rule + '.limits', '%s is tested in %d guards' % (param, len(al)))
+            return None
+        g, a = al[0]
+        small, strict, big = a.as_less()
+        if fi.xu(big) == param and strict:
+            return g, small
+        # the continue condition is not `<quantity> < param`
+        ck.bad(rule + '.limits', mod, g, F, u(g.test), 'the loop must stop as soon as <quantity> >= %s (%s); here it continues while `%s`' % (param, what, a))
+        return None
+    lc = limit('count', npaths, 'otherwise one path too many / too few is returned')
+    le = limit('expl', cutoff, 'otherwise the explained-flux cut-off is missed')
+    ordered = []
+    if lc is not None:
+        g, q = lc
+        qx = fi.xu(q)
+        if qx in ('len(%s)' % PATHS, 'len(%s)' % FLUXES):
+            L = PATHS if qx == 'len(%s)' % PATHS else FLUXES
+            st = rec[0] if L == PATHS else rec[1]
+            ck.check(cfg.dominates(st, g), rule + '.limits', mod, g, F, u(g.test), 'number of paths found = length of the result list, tested after recording',
+                     'len(%s) is tested before the current path is recorded: one path too many' % L)
+        elif isinstance(q, ast.Name):
+            ds = list(fi.defs_of_use(q))
+            incs = [d for d in ds if not isinstance(d, str) and _inside(mod, d, loop)]
+            inc = incs[0] if len(incs) == 1 else None
+            one = inc is not None and _loop_of(mod, inc, fn) is loop and (
+                isinstance(inc, ast.AugAssign) and isinstance(inc.op, ast.Add) and const_value(inc.value) == 1 or
+                isinstance(inc, ast.Assign) and u(canon(inc.value)) in (C('%s + 1' % q.id), C('1 + %s' % q.id)))
+            if not one and inc is not None and isinstance(inc, ast.AugAssign) and _loop_of(mod, inc, fn) is loop and const_value(inc.value) is not None:
+                ck.bad(rule + '.limits', mod, inc, F, u(inc), 'the number of recorded paths must advance by `+= 1` per path')
+            elif not one:
+                ck.missing(rule + '.limits', 'the path counter `%s` is not advanced by exactly one `+= 1` per iteration' % q.id)
+            elif len(ds) != 1:
+                ck.bad(rule + '.limits', mod, g, F, u(g.test), 'the path counter `%s` is tested before `%s` has run for the path just recorded: one path too many is returned' % (q.id, u(inc)))
+            else:
+                init = [d for d in fi.rd.defs_at(inc, q.id) if d is not inc]
+                vi = ('match', {}) if len(init) == 1 and isinstance(init[0], ast.Assign) and const_value(init[0].value) == 0 and not _inside(mod, init[0], loop) \
+                    else ('near', 1, '0') if len(init) == 1 and isinstance(init[0], ast.Assign) and const_value(init[0].value) is not None else ('far', 0, None)
+                ck.decide(vi, rule + '.limits', mod, init[0] if len(init) == 1 and init[0] not in ('PARAM', 'UNBOUND') else inc, F,
+                          u(init[0]) if len(init) == 1 and init[0] not in ('PARAM', 'UNBOUND') else q.id,
+                          'path counter starts at 0', 'the path counter must start at 0')
+                ck.check(all(cfg.dominates(s, inc) or cfg.dominates(inc, s) for s in rec) and cfg.dominates(tps, inc) and
+                         all(cfg.dominates(e[0], inc) for e in early), rule + '.limits', mod, inc, F, u(inc),
+                         'the counter advances once per recorded path', 'the counter must advance exactly when a path is recorded')
+                ordered.append(inc)
+        else:
+            ck.missing(rule + '.limits', 'quantity `%s` compared with %s is not a counter of the recorded paths' % (u(q), npaths))
+    acc = None
+    if le is not None:
+        g, q = le
+        ds = list(fi.defs_of_use(q)) if isinstance(q, ast.Name) else []
+        acc = ds[0] if len(ds) == 1 and not isinstance(ds[0], str) and _inside(mod, ds[0], loop) and _loop_of(mod, ds[0], fn) is loop else None
+        term = None
+        if isinstance(acc, ast.AugAssign) and isinstance(acc.op, ast.Add):
+            term = acc.value
+        elif isinstance(acc, ast.Assign) and isinstance(acc.value, ast.BinOp) and isinstance(acc.value.op, ast.Add):
+            l, r_ = acc.value.left, acc.value.right
+            term = r_ if u(l) == q.id else l if u(r_) == q.id else None
+        if term is None and isinstance(acc, ast.AugAssign) and classify(fi.expand(acc.value, stop=(W,)), ['%s / _T' % FLUX])[0] == 'match':
+            ck.bad(rule + '.limits', mod, acc, F, u(acc), 'the explained fraction must ACCUMULATE flux / total (+=)')
+            acc = None
+        elif term is None:
+            ck.missing(rule + '.limits', 'accumulation `<explained> += %s / <total>` of the quantity compared with %s' % (FLUX, cutoff))
+            acc = None
+        else:
+            vt = classify(fi.expand(term, stop=(W,)), ['%s / _T' % FLUX], near=1)
+            T = vt[1].get('_T') if vt[0] == 'match' else None
+            ck.decide(vt, rule + '.limits', mod, acc, F, u(acc), 'explained fraction accumulates flux / total', 'expl_flux += flux / total_flux expected')
+            init = [d for d in fi.rd.defs_at(acc, q.id) if d is not acc]
+            vi = ('match', {}) if len(init) == 1 and isinstance(init[0], ast.Assign) and _is_zero(init[0].value) and not _inside(mod, init[0], loop) \
+                else ('near', 1, '0.0') if len(init) == 1 and isinstance(init[0], ast.Assign) and const_value(init[0].value) is not None else ('far', 0, None)
+            ck.decide(vi, rule + '.limits', mod, init[0] if vi[0] != 'far' else acc, F, u(init[0]) if vi[0] != 'far' else q.id,
+                      'explained fraction starts at 0', 'the explained fraction must start at 0')
+            ordered.append(acc)
+            if vt[0] == 'match':
+                # the divisor: total outflow of the sources (of the matrix as it is before any path is removed)
+                tot_forms = []
+                for X in sorted({W, nf}):
+                    tot_forms += ['%s[%s, :].sum()' % (X, sources), '%s[%s].sum()' % (X, sources), '%s[%s, :].sum(axis=1).sum()' % (X, sources)]
+                tdef, texpr = None, None
+                if isinstance(T, ast.Name):
+                    tds = list(fi.rd.defs_at(acc, T.id))     # (expansion keeps operands whose definitions are the same at the use)
+                    if len(tds) == 1 and isinstance(tds[0], ast.Assign) and not _inside(mod, tds[0], loop) and \
+                            (rm is None or rm not in fi.rd.defs_at(tds[0], W)) and fi.def_value(tds[0], T.id) is not None:
+                        tdef = tds[0]
+                        texpr = fi.expand(fi.def_value(tdef, T.id), stop=(sources, W, nf))
+                elif rm is None or rm not in fi.rd.defs_at(acc, W):
+                    tdef, texpr = acc, T          # the total is recomputed in place: W still is the initial copy there
+                if texpr is None:
+                    ck.missing(rule + '.total', 'definition of the total flux `%s` before the loop' % u(T)[:60])
+                else:
+                    v = classify(texpr, tot_forms, scope={W, nf, sources})
+                    ck.decide(v, rule + '.total', mod, tdef, F, u(tdef), 'total = outflow of the sources (rows)', 'total_flux must be the sum of the source ROWS')
+    if lc is not None and le is not None:
+        ck.ok(rule + '.limits', mod, lc[0], u(lc[0].test), 'stop when the requested number of paths OR the explained fraction is reached')
+
+    # ---- order: record -> test -> remove
+    lim_guards = [x[0] for x in (lc, le) if x is not None]
+    if lim_guards:
+        first_g = [g for g in lim_guards if all(cfg.dominates(g, h) for h in lim_guards)]
+        before = rec + ordered
+        ok_before = all(cfg.dominates(s, g) and not _inside(mod, s, g) for s in before for g in lim_guards) and all(cfg.dominates(tps, s) for s in before)
+        ok_after = rm is None or all(cfg.dominates(g, rm) and not any(rm is x or _inside(mod, rm, x) for x in (g.body if _break_polarity(g) else g.orelse))
+                                     for g in lim_guards)
+        ck.check(ok_before and ok_after and bool(first_g), rule + '.order', mod, lim_guards[0], F, 'record -> test -> remove',
+                 'path is recorded, then the limits are tested, then the path is removed',
+                 'the loop must record the path (and update counter and explained flux), test the limits, and only then remove the path')
+
+    # ---- result
     r = returns_of(fn)
-    ck.check(len(r) == 1 and u(r[0].value) == '(paths, fluxes)', rule + '.return', mod, r[0] if r else fn, 'paths', u(r[0]) if r else '?', 'returns (paths, fluxes)', 'must return (paths, fluxes)')
+    if len(r) != 1 or not isinstance(r[0].value, ast.Tuple) or len(r[0].value.elts) != 2 or _inside(mod, r[0], loop):
+        ck.missing(rule + '.return', 'single `return <paths>, <fluxes>` after the loop')
+        return
+    e0, e1 = r[0].value.elts
+    if isinstance(e1, ast.Name):
+        ds = list(fi.defs_of_use(e1))
+        if len(ds) == 1 and isinstance(ds[0], ast.Assign) and not _inside(mod, ds[0], loop) and u(ds[0].value) not in ('[]', 'list()'):
+            e1 = ds[0].value
+    v0 = classify(e0, [PATHS], scope={PATHS, FLUXES})
+    v1 = classify(e1, ['np.array(%s)' % FLUXES, 'np.asarray(%s)' % FLUXES, 'np.array(%s, dtype=float)' % FLUXES, 'np.asarray(%s, dtype=float)' % FLUXES],
+                  scope={PATHS, FLUXES})
+    ck.decide(v0 if v0[0] != 'match' else v1, rule + '.return', mod, r[0], F, u(r[0]), 'returns (paths, fluxes)', 'must return (paths, np.array(fluxes))')
